@@ -295,7 +295,7 @@ Qed.
 Theorem node_points_inv st id pts st' :
   wf st -> Inv st -> node_points st id pts = Ok st' -> wf st' /\ Inv st'.
 Proof.
-  intros W HI. unfold node_points. destruct (has_nan pts); [discriminate|].
+  intros W HI. unfold node_points. destruct (has_nan pts); [discriminate|]. destruct (bad_times pts); [discriminate|].
   destruct (merge_batch false (node_rows (s_nodes st) id) (collapse pts)) as [rows d] eqn:EM.
   intros E. inversion E; subst st'; clear E.
   pose proof (merge_batch_snd false (node_rows (s_nodes st) id) (collapse pts)) as Hd. rewrite EM in Hd. cbn [fst snd] in Hd.
